@@ -8,7 +8,7 @@ use resolvo_cpp::verif::{String as RString, Vector};
 use std::ffi::c_void;
 
 macro_rules! vec_ffi {
-    ($clone:ident, $push:ident, $from:ident, $consume:ident, $t:ty, $mk:expr) => {
+    ($clone:ident, $push:ident, $from:ident, $consume:ident, $t:ty, $mk:expr, $val:expr) => {
         /// Rust-side copy: `out` (a default vector) becomes a clone of `src`
         #[no_mangle]
         pub extern "C" fn $clone(src: &Vector<$t>, out: &mut Vector<$t>) {
@@ -28,28 +28,40 @@ macro_rules! vec_ffi {
         }
         /// Ownership of the vector passes to Rust, which reads k elements through
         /// into_iter and drops the rest.  `raw` is the vector's single pointer field.
+        /// Returns a digest of what was read: sum over i of (i + 1) * 10^i-ish weights.
         #[no_mangle]
-        pub unsafe extern "C" fn $consume(raw: *mut c_void, k: usize) -> usize {
+        pub unsafe extern "C" fn $consume(raw: *mut c_void, k: usize) -> u64 {
             let v: Vector<$t> = std::mem::transmute::<*mut c_void, Vector<$t>>(raw);
             let mut it = v.into_iter();
-            let mut n = 0;
+            let mut digest: u64 = 0;
             for _ in 0..k {
-                if it.next().is_some() {
-                    n += 1;
+                if let Some(x) = it.next() {
+                    digest = digest * 10 + $val(&x);
+                } else {
+                    digest = digest * 10 + 9;
                 }
             }
             drop(it);
-            n
+            digest
         }
     };
 }
 
-vec_ffi!(verif_vec_u32_clone, verif_vec_u32_push, verif_vec_u32_from, verif_vec_u32_consume, u32, |x: u32| x);
+vec_ffi!(
+    verif_vec_u32_clone,
+    verif_vec_u32_push,
+    verif_vec_u32_from,
+    verif_vec_u32_consume,
+    u32,
+    |x: u32| x,
+    |x: &u32| *x as u64
+);
 vec_ffi!(
     verif_vec_str_clone,
     verif_vec_str_push,
     verif_vec_str_from,
     verif_vec_str_consume,
     RString,
-    |x: u32| RString::from(format!("s{x}").as_str())
+    |x: u32| RString::from(format!("s{x}").as_str()),
+    |x: &RString| x.to_string()[1..].parse::<u64>().unwrap()
 );
